@@ -339,3 +339,150 @@ Lemma C09_f20_witness_swallowed :
                       /\ forest_comments f20_witness forest = []
                       /\ program_comments p = [].
 Proof. exact f20_witness_swallowed. Qed.
+
+(* ======================================================================================================
+   PARSER HALF, second round (C09P2): proofs/PegQuiet.v, proofs/PegShape.v, proofs/PegCommentsWf.v *)
+Require Import Blots.proofs.PegGeneric Blots.proofs.PegQuiet Blots.proofs.PegShape Blots.proofs.PegCommentsWf
+  Blots.proofs.Comments Blots.proofs.ScanFmt Blots.proofs.DriverText.
+
+(* (c') QUIET RULES EMIT NO PAIRS — for EVERY grammar, every expression, state, fuel, mode, atomicity, lookahead:
+   if Q is a set of silent rules whose bodies reference only rules of Q, and it contains the grammar's implicit-skip
+   rules, then running any expression that references only rules of Q leaves the produced pairs unchanged *)
+Theorem C09_quiet_rules_emit_no_pairs :
+  forall (R : Type) (G : grammar R) (Q : R -> bool),
+  (forall r, Q r = true -> rd_mod (g_def G r) = MSilent) ->
+  (forall r, Q r = true -> forallb Q (idents R (rd_body (g_def G r))) = true) ->
+  (forall w, g_ws G = Some w -> Q w = true) ->
+  (forall c, g_comment G = Some c -> Q c = true) ->
+  forall fuel m a la e s s',
+  forallb Q (idents R e) = true ->
+  (run G fuel m a la e s = Peg.Ok s' \/ run G fuel m a la e s = Peg.Fail s') ->
+  out s' = out s.
+Proof. exact quiet_rules_emit_no_pairs. Qed.
+Check C09_quiet_rules_emit_no_pairs :
+  forall (R : Type) (G : grammar R) (Q : R -> bool),
+  (forall r, Q r = true -> rd_mod (g_def G r) = MSilent) ->
+  (forall r, Q r = true -> forallb Q (idents R (rd_body (g_def G r))) = true) ->
+  (forall w, g_ws G = Some w -> Q w = true) ->
+  (forall c, g_comment G = Some c -> Q c = true) ->
+  forall fuel m a la e s s',
+  forallb Q (idents R e) = true ->
+  (run G fuel m a la e s = Peg.Ok s' \/ run G fuel m a la e s = Peg.Fail s') ->
+  out s' = out s.
+Print Assumptions C09_quiet_rules_emit_no_pairs.
+
+(* the statement kept as a Definition in the previous round, now a theorem *)
+Theorem C09_quiet_rules_emit_no_pairs_on_grammar : C09_quiet_rules_emit_no_pairs_full.
+Proof. exact quiet_rules_emit_no_pairs_blots. Qed.
+Check C09_quiet_rules_emit_no_pairs_on_grammar : C09_quiet_rules_emit_no_pairs_full.
+Print Assumptions C09_quiet_rules_emit_no_pairs_on_grammar.
+
+(* F20 as a theorem on the regenerated grammar: for EVERY text (state), calling context and fuel, what NEWLINE reads
+   (an optional "//" run up to the line break, then the line break) yields no pair *)
+Theorem C09_newline_never_yields_a_pair : forall fuel m a la s s',
+  (run blots_grammar fuel m a la (Ident PG_NEWLINE) s = Peg.Ok s' \/
+   run blots_grammar fuel m a la (Ident PG_NEWLINE) s = Peg.Fail s') ->
+  out s' = out s.
+Proof. exact newline_never_yields_a_pair. Qed.
+Check C09_newline_never_yields_a_pair : forall fuel m a la s s',
+  (run blots_grammar fuel m a la (Ident PG_NEWLINE) s = Peg.Ok s' \/
+   run blots_grammar fuel m a la (Ident PG_NEWLINE) s = Peg.Fail s') ->
+  out s' = out s.
+Print Assumptions C09_newline_never_yields_a_pair.
+
+(* (d) SHAPE of the interpreter's trees, PROVED of Peg.parse (previously only tested on every tree).
+   Generic tool: a per-rule postcondition established for each rule BODY holds of every node of every tree *)
+Theorem C09_shape_postconditions_hold_of_every_node :
+  forall (R : Type) (G : grammar R) (text : string) (C : R -> string -> list (tree R) -> Prop),
+  (forall f, body_gives R G text C (run G f)) ->
+  forall f r s', Peg.parse G f r text = Peg.Ok s' -> forest_all R text C (out s').
+Proof. exact parse_nodes. Qed.
+Check C09_shape_postconditions_hold_of_every_node :
+  forall (R : Type) (G : grammar R) (text : string) (C : R -> string -> list (tree R) -> Prop),
+  (forall f, body_gives R G text C (run G f)) ->
+  forall f r s', Peg.parse G f r text = Peg.Ok s' -> forest_all R text C (out s').
+Print Assumptions C09_shape_postconditions_hold_of_every_node.
+
+(* the text of every `comment` / `eol_comment` pair, at any depth, is "//" ++ r with no line feed in r
+   (conjunct "no \n inside a comment text" of forest_shape_ok, and "comments are //…" of atoms_ok) *)
+Theorem C09_shape_comment_texts : forall fuel text s',
+  Peg.parse blots_grammar fuel PG_input text = Peg.Ok s' ->
+  Forall comment_text_ok (forest_comments text (rev (out s'))).
+Proof. exact shape_comment_texts. Qed.
+Check C09_shape_comment_texts : forall fuel text s',
+  Peg.parse blots_grammar fuel PG_input text = Peg.Ok s' ->
+  Forall comment_text_ok (forest_comments text (rev (out s'))).
+Print Assumptions C09_shape_comment_texts.
+Theorem C09_shape_comment_texts_program : forall text forest p,
+  parse_program_c text = PCOk forest p -> Forall comment_text_ok (forest_comments text forest).
+Proof. exact shape_comment_texts_program. Qed.
+Check C09_shape_comment_texts_program : forall text forest p,
+  parse_program_c text = PCOk forest p -> Forall comment_text_ok (forest_comments text forest).
+Print Assumptions C09_shape_comment_texts_program.
+
+(* the inner pairs of every do_block node are (comment | do_statement)* return_statement — exactly one
+   return_statement, and it is last; a return_statement has exactly one inner pair (its expression); a do_statement /
+   list_item / record_item / statement is one pair optionally followed by one (eol_)comment pair  [kids_spec] *)
+Theorem C09_shape_inner_pairs : forall fuel text s',
+  Peg.parse blots_grammar fuel PG_input text = Peg.Ok s' ->
+  forest_all grule text C_kids (rev (out s')).
+Proof. exact shape_kids. Qed.
+Check C09_shape_inner_pairs : forall fuel text s',
+  Peg.parse blots_grammar fuel PG_input text = Peg.Ok s' ->
+  forest_all grule text C_kids (rev (out s')).
+Print Assumptions C09_shape_inner_pairs.
+Example C09_shape_do_block_reading : forall l,
+  kids_spec PG_do_block l <->
+  exists pre, l = pre ++ [PG_return_statement] /\ Forall (fun x => x = PG_comment \/ x = PG_do_statement) pre.
+Proof. intro l. reflexivity. Qed.
+
+(* (e) wf_ast, a hypothesis of the formatter half inside stmt_ok, DERIVED from the parser model: everything
+   pairs_to_expr_with_comments returns is wf_ast (for every token stream) ... *)
+Theorem C09_parser_output_wf_ast : forall its t, pratt_c its = Outcome.Ok (Some t) -> wf_ast t = true.
+Proof. exact pratt_c_wf_ast. Qed.
+Check C09_parser_output_wf_ast : forall its t, pratt_c its = Outcome.Ok (Some t) -> wf_ast t = true.
+Print Assumptions C09_parser_output_wf_ast.
+Theorem C09_parsed_program_wf_ast : forall text forest p,
+  parse_program_c text = PCOk forest p -> forallb stmt_wf_ast p = true.
+Proof. exact parse_program_c_wf. Qed.
+Check C09_parsed_program_wf_ast : forall text forest p,
+  parse_program_c text = PCOk forest p -> forallb stmt_wf_ast p = true.
+Print Assumptions C09_parsed_program_wf_ast.
+
+(* ... so the end-to-end theorems hold with stmt_ok_parsed = stmt_ok minus its wf_ast conjunct *)
+Theorem C09_tree_to_text_lib_parsed :
+  forall O key_ok, (forall k, key_ok k = true -> neutral (o_record_key O k)) ->
+  forall text forest p mw d,
+  forest_view_ok text forest = true -> forest_shape_ok text forest = true ->
+  forest_no_empty_container text forest = true ->
+  program_of_forest text forest = Outcome.Ok (Some p) ->
+  Forall (stmt_ok_parsed O key_ok mw) p -> format_lib O mw p = Some d ->
+  scan_comments (render d) = forest_comments text forest.
+Proof. exact tree_to_text_lib_parsed. Qed.
+Check C09_tree_to_text_lib_parsed :
+  forall O key_ok, (forall k, key_ok k = true -> neutral (o_record_key O k)) ->
+  forall text forest p mw d,
+  forest_view_ok text forest = true -> forest_shape_ok text forest = true ->
+  forest_no_empty_container text forest = true ->
+  program_of_forest text forest = Outcome.Ok (Some p) ->
+  Forall (stmt_ok_parsed O key_ok mw) p -> format_lib O mw p = Some d ->
+  scan_comments (render d) = forest_comments text forest.
+Print Assumptions C09_tree_to_text_lib_parsed.
+Theorem C09_tree_to_text_cli_parsed :
+  forall O key_ok, (forall k, key_ok k = true -> neutral (o_record_key O k)) ->
+  forall text forest p,
+  forest_view_ok text forest = true -> forest_shape_ok text forest = true ->
+  forest_no_empty_container text forest = true ->
+  program_of_forest text forest = Outcome.Ok (Some p) ->
+  Forall (stmt_ok_parsed O key_ok None) p ->
+  scan_comments (render (format_cli O p)) = forest_comments text forest.
+Proof. exact tree_to_text_cli_parsed. Qed.
+Check C09_tree_to_text_cli_parsed :
+  forall O key_ok, (forall k, key_ok k = true -> neutral (o_record_key O k)) ->
+  forall text forest p,
+  forest_view_ok text forest = true -> forest_shape_ok text forest = true ->
+  forest_no_empty_container text forest = true ->
+  program_of_forest text forest = Outcome.Ok (Some p) ->
+  Forall (stmt_ok_parsed O key_ok None) p ->
+  scan_comments (render (format_cli O p)) = forest_comments text forest.
+Print Assumptions C09_tree_to_text_cli_parsed.
